@@ -484,7 +484,18 @@ pub fn int_div(lhs: &Value, rhs: &Value) -> Result<Value, Error> {
 pub fn pow(lhs: &Value, rhs: &Value) -> Result<Value, Error> {
     match coerce(lhs, rhs, true) {
         Some(CoerceResult::I128(a, b)) => {
-            match TryFrom::try_from(b).ok().and_then(|b| a.checked_pow(b)) {
+            let rv = match u32::try_from(b) {
+                Ok(b) => a.checked_pow(b),
+                // exponents beyond u32 only have a representable result for
+                // the bases 0, 1 and -1.
+                Err(_) if b > 0 => match a {
+                    0 | 1 => Some(a),
+                    -1 => Some(if b % 2 == 0 { 1 } else { -1 }),
+                    _ => None,
+                },
+                Err(_) => None,
+            };
+            match rv {
                 Some(val) => Ok(int_as_value(val)),
                 None => Err(failed_op("**", lhs, rhs)),
             }
